@@ -17,7 +17,7 @@ pub fn prop() -> Prop {
         ],
         subs: vec![
             Sub::enumerate("store_load", store_load),
-            Sub::tape("iterator_scripts", 40, 300_000, 4_500_000, iterator_scripts),
+            Sub::tape("iterator_scripts", 40, 300_000, 15_000_000, iterator_scripts),
         ],
     }
 }
